@@ -5,13 +5,16 @@
    raise, the tick time, and which pending command lines have been completed by the command manager. *)
 From Coq Require Import ZArith List Bool Arith.
 From OP Require Import lib.Obs.
+From OP Require model.C41.
 Import ListNotations.
 Open Scope Z_scope.
 
 Inductive kind := KProgram | KBlank (trailing : bool) | KMark | KBlock | KEndBlock | KEndBlocks | KWatch | KAlarm
                 | KWait (dur : Z)          (* duration in tenths of a second *)
                 | KNoop (count : nat) | KCmd | KSimple | KError
-                | KInjected.                  (* the root of an injected snippet: not part of the method tree *)
+                | KInjected                   (* the root of an injected snippet: not part of the method tree *)
+                | KMacro (name : nat)         (* Macro: <name> -- the definition; its children are the body *)
+                | KCallMacro (name : nat).    (* Call macro: <name> *)
 Record node := { n_kind : kind; n_parent : option nat; n_children : list nat; n_thr : bool }.
 Definition program := list node.
 
@@ -34,7 +37,8 @@ Inductive frame :=
 | FWait (n : nat) (stop : Z) | FNoop (n i : nat)
 | FWatchAwait (n : nat) | FWatchInv (n : nat) | FWatchBody (n : nat)
 | FAlarmAwait (n : nat) | FAlarmInv (n : nat) | FAlarmBody (n : nat) | FAlarmPost (n : nat)
-| FInjAfter (n : nat).
+| FInjAfter (n : nat)
+| FMacro1 (n : nat) | FCallAfter (n m : nat).
 Definition stack := list frame.
 
 Record env := { e_time : Z; e_thr_wait : list nat; e_cond_true : list nat; e_cond_err : list nat }.
@@ -46,7 +50,8 @@ Record S := {
   last_error : option nat;
   block_tag : option nat;
   scheduled : nat;                    (* commands passed to the engine in this tick *)
-  marks : list nat }.                 (* Mark lines executed, oldest first *)
+  marks : list nat;                   (* Mark lines executed, oldest first *)
+  macros : list (nat * nat) }.        (* ProgramNode.macros: name -> the Macro node registered last under that name *)
 
 Inductive res := REnd | RCont | RExhausted.
 
@@ -61,9 +66,9 @@ Section Prog.
     match l, i with [], _ => [] | _ :: l', O => x :: l' | y :: l', Datatypes.S i' => y :: upd l' i' x end.
   Definition set_ns (s : S) (n : nat) (x : ns) : S :=
     {| nodes := upd (nodes s) n x; ints := ints s; serial := serial s; last_error := last_error s; block_tag := block_tag s;
-       scheduled := scheduled s; marks := marks s |}.
+       scheduled := scheduled s; marks := marks s; macros := macros s |}.
   Definition with_ints (s : S) (i : list (nat * (nat * stack))) (sr : nat) : S :=
-    {| nodes := nodes s; ints := i; serial := sr; last_error := last_error s; block_tag := block_tag s; scheduled := scheduled s; marks := marks s |}.
+    {| nodes := nodes s; ints := i; serial := sr; last_error := last_error s; block_tag := block_tag s; scheduled := scheduled s; marks := marks s; macros := macros s |}.
 
   (* field updates *)
   Definition set_started (x : ns) (b : bool) : ns :=
@@ -137,6 +142,7 @@ Section Prog.
         let x3 := set_cond x2 (match k with KWatch | KAlarm => false | _ => activated x2 end) false (run_count x2) in
         match k with KBlock => set_block x3 false false | _ => x3 end
     | KWait _ => set_wait x1 None
+    | KMacro _ => set_kids x1 0 false         (* is_registered and the run counters deliberately survive *)
     | _ => x1
     end.
   Definition reset_tree (s : S) (n : nat) : S :=
@@ -176,13 +182,39 @@ Section Prog.
   | Raise (k : stack) (s : S).                 (* an exception propagates from the frame that was on top *)
 
   Definition with_tag (s : S) (t : option nat) : S :=
-    {| nodes := nodes s; ints := ints s; serial := serial s; last_error := last_error s; block_tag := t; scheduled := scheduled s; marks := marks s |}.
+    {| nodes := nodes s; ints := ints s; serial := serial s; last_error := last_error s; block_tag := t; scheduled := scheduled s; marks := marks s; macros := macros s |}.
   Definition add_mark (s : S) (n : nat) : S :=
-    {| nodes := nodes s; ints := ints s; serial := serial s; last_error := last_error s; block_tag := block_tag s; scheduled := scheduled s; marks := marks s ++ [n] |}.
+    {| nodes := nodes s; ints := ints s; serial := serial s; last_error := last_error s; block_tag := block_tag s; scheduled := scheduled s; marks := marks s ++ [n]; macros := macros s |}.
   Definition add_sched (s : S) : S :=
-    {| nodes := nodes s; ints := ints s; serial := serial s; last_error := last_error s; block_tag := block_tag s; scheduled := Datatypes.S (scheduled s); marks := marks s |}.
+    {| nodes := nodes s; ints := ints s; serial := serial s; last_error := last_error s; block_tag := block_tag s; scheduled := Datatypes.S (scheduled s); marks := marks s; macros := macros s |}.
   Definition set_error (s : S) (n : nat) : S :=
-    {| nodes := nodes s; ints := ints s; serial := serial s; last_error := Some n; block_tag := block_tag s; scheduled := scheduled s; marks := marks s |}.
+    {| nodes := nodes s; ints := ints s; serial := serial s; last_error := Some n; block_tag := block_tag s; scheduled := scheduled s; marks := marks s; macros := macros s |}.
+
+  (* ---------- macros ---------- *)
+  (* a Macro node keeps its own bookkeeping in fields it does not otherwise use: is_registered in interrupt_registered,
+     run_started_count in run_count, run_completed_count in wait_start *)
+  Definition with_macros (s : S) (l : list (nat * nat)) : S :=
+    {| nodes := nodes s; ints := ints s; serial := serial s; last_error := last_error s; block_tag := block_tag s;
+       scheduled := scheduled s; marks := marks s; macros := l |}.
+  Fixpoint macro_lookup (l : list (nat * nat)) (nm : nat) : option nat :=
+    match l with [] => None | (k, m) :: l' => if Nat.eqb k nm then Some m else macro_lookup l' nm end.
+  Fixpoint macro_put (l : list (nat * nat)) (nm m : nat) : list (nat * nat) :=
+    match l with [] => [(nm, m)] | (k, m0) :: l' => if Nat.eqb k nm then (k, m) :: l' else (k, m0) :: macro_put l' nm m end.
+  Definition run_completed (x : ns) : nat := match wait_start x with Some z => Z.to_nat z | None => 0 end.
+  (* the names a macro body calls, in source order: nested blocks / watches / alarms included, nested definitions not *)
+  Fixpoint calls_fuel (fuel : nat) (n : nat) : list nat :=
+    match fuel with
+    | O => []
+    | Datatypes.S f => flat_map (fun c => match n_kind (nd c) with
+                                          | KCallMacro nm => [nm]
+                                          | KMacro _ => []
+                                          | _ => calls_fuel f c
+                                          end) (n_children (nd n))
+    end.
+  Definition calls_of (m : nat) : list nat := calls_fuel (length p) m.
+  (* visit_CallMacroNode's check: would calling macro nm (node m) make it call itself *)
+  Definition would_recurse (s : S) (nm m : nat) : bool :=
+    C41.refused (map (fun e => (fst e, calls_of (snd e))) (macro_put (macros s) nm m)) nm.
 
   (* after the threshold has passed: started, path pushed, visit_Node yields EndTick *)
   Definition enter (n : nat) (k : stack) (s : S) : outcome :=
@@ -265,6 +297,26 @@ Section Prog.
     | KSimple => Yield REnd (FRet :: k) (mark_completed (complete s n) n)
     | KError => Raise k (set_ns s n (set_failed (st s n) true))
     | KInjected => Go (FKidsEntry n :: FInjAfter n :: k) s          (* visit_InjectedNode: the children, then completed *)
+    | KMacro nm =>                                                  (* the definition: register, complete; the body does not run *)
+        let s1 := if interrupt_registered (st s n) then s
+                  else set_ns (with_macros s (macro_put (macros s) nm n)) n
+                              (set_cond (st s n) (activated (st s n)) true (run_count (st s n))) in
+        Yield RCont (FMacro1 n :: k) s1
+    | KCallMacro nm =>
+        match macro_lookup (macros s) nm with
+        | None => Raise k s                                         (* no macro of that name *)
+        | Some m =>
+            if would_recurse s nm m then Raise k s
+            else match n_kind (nd m) with KMacro _ =>
+              let x := st s m in
+              let s1 := if Nat.leb (run_count x) (run_completed x)
+                        then let s' := reset_tree s m in
+                             set_ns s' m (set_cond (st s' m) (activated (st s' m)) (interrupt_registered (st s' m))
+                                                   (Datatypes.S (run_count (st s' m))))
+                        else s in                                   (* complete a started call *)
+              Go (FKidsEntry m :: FCallAfter n m :: k) s1
+            | _ => Raise k s end                                    (* the registry only holds Macro nodes *)
+        end
     | KWatch =>
         if negb (interrupt_registered (st s n)) then Yield REnd (FRet :: k) (register_interrupt s n)
         else if negb in_int then Yield REnd (FRet :: k) s
@@ -341,6 +393,11 @@ Section Prog.
         | _ => Go k s          (* this frame only exists for alarm nodes *)
         end
     | FInjAfter n => Yield REnd (FRet :: k) (mark_completed (complete s n) n)
+    | FMacro1 n => Yield REnd (FRet :: k) (mark_completed (complete s n) n)
+    | FCallAfter n m =>
+        let xm := st s m in
+        let s1 := set_ns s m (set_wait (set_completed xm true) (Some (Z.of_nat (Datatypes.S (run_completed xm))))) in
+        Yield REnd (FRet :: k) (mark_completed (complete s1 n) n)
     end.
 
   (* an exception unwinds to the nearest enclosing visit, which records the failure and returns normally *)
@@ -404,7 +461,7 @@ Section Prog.
      ran; returns the new main generator, the state and whether tick raised (an error is recorded) *)
   Definition tick (rounds fuel : nat) (e : env) (main : stack) (s : S) : option (stack * S * bool) :=
     let s0 := {| nodes := nodes s; ints := ints s; serial := serial s; last_error := last_error s; block_tag := block_tag s;
-                 scheduled := 0; marks := marks s |} in
+                 scheduled := 0; marks := marks s; macros := macros s |} in
     match drive rounds fuel e false main s0 with
     | None => None
     | Some (main', s1) =>
